@@ -125,6 +125,41 @@ pub fn dym_lists() {
     oblige!(got == spec_suggestion(r.len(), &acc, &dist), "C18:suggests_only_a_closest_accepted_name_within_the_budget");
 }
 
+/// GENERATED long inputs (bounded, native): received words of every length 0..=40, candidates at 0..=7 edits from them (substitutions,
+/// deletions, insertions and adjacent transpositions at positions spread by a seed), lists of 0..=8 candidates -- a slip that only
+/// shows for long words, many edits or long candidate lists cannot hide behind the short exhaustive domains above
+pub fn dym_generated() {
+    const BASE: &str = "abcdefghijklmnopqrstuvwxyzABCDEFGHIJKLMN";
+    let len = nd::below(41) as usize;
+    let edits = nd::below(8) as usize;
+    let n = nd::below(9) as usize;
+    let seed = nd::below(4) as usize;
+    let received: String = BASE[..len].to_string();
+    let mutate = |k: usize, salt: usize| -> String {
+        let mut w: Vec<char> = received.chars().collect();
+        let mut j = 0;
+        while j < k {
+            let l = w.len();
+            let pos = if l == 0 { 0 } else { (seed * 7 + salt * 3 + j * 5) % l };
+            match (j + salt + seed) % 5 {
+                0 => { if l > 0 { w[pos] = char::from(b'0' + ((j + salt) % 10) as u8); } else { w.push('0'); } }
+                1 => { if l > 0 { w.remove(pos); } else { w.push('1'); } }
+                2 => { w.insert(pos.min(l), char::from(b'0' + ((j * 3 + salt) % 10) as u8)); }
+                3 => { if l >= 2 { let q = pos.min(l - 2); w.swap(q, q + 1); } else { w.push('2'); } }
+                // a transposed pair with an insertion between its two letters: 2 unrestricted edits, 3 for the restricted (OSA) distance
+                _ => { if l >= 2 && j + 1 < k { let q = pos.min(l - 2); w.swap(q, q + 1); w.insert(q + 1, '9'); j += 1; } else { w.push('3'); } }
+            }
+            j += 1;
+        }
+        w.into_iter().collect()
+    };
+    let owned: Vec<String> = (0..n).map(|i| match i % 4 { 0 => mutate(edits, i), 1 => mutate(edits + 1, i), 2 => mutate(edits.saturating_sub(1), i), _ => "zzzzzzzzzzzzzzzzzzzzzzzzzzzzzzzzzzzzzzzzzzzz"[..(len + i) % 44].to_string() }).collect();
+    let acc: Vec<&str> = owned.iter().map(|s| s.as_str()).collect();
+    let dist: Vec<usize> = acc.iter().map(|c| dl_spec(&received, c)).collect();
+    let got = did_you_mean(&received, &acc);
+    oblige!(got == spec_suggestion(received.len(), &acc, &dist), "C18:suggests_only_a_closest_accepted_name_within_the_budget");
+}
+
 // Kani: distances are symbolic (the real strsim is stubbed), so every threshold +-1 and every tie pattern is covered
 pub static mut DIST: [usize; 3] = [0; 3];
 pub const CANDS: [&str; 3] = ["aaaa", "bbbb", "cccc"];
@@ -155,7 +190,7 @@ pub fn dym_symbolic_distances() {
 }
 
 pub fn registry() -> Vec<(&'static str, crate::Body)> {
-    vec![("kinds_sequences", kinds_sequences as crate::Body), ("kinds_permutations", kinds_permutations), ("dym_pairs", dym_pairs), ("dym_lists", dym_lists), ("dym_pairs_multibyte", dym_pairs_multibyte)]
+    vec![("kinds_sequences", kinds_sequences as crate::Body), ("kinds_permutations", kinds_permutations), ("dym_pairs", dym_pairs), ("dym_lists", dym_lists), ("dym_pairs_multibyte", dym_pairs_multibyte), ("dym_generated", dym_generated)]
 }
 
 #[cfg(kani)]
